@@ -223,7 +223,7 @@ def validate_tcp_trace(ctx, trace, prefix=""):
     ctx.cov["traces_validated_against_impl"] += len(lines)
 
 
-def engines(ctx, prefix=""):
+def engines(ctx, prefix="", only=None, secure=True):
     trace = os.path.join(ctx.scratch, "udpjob_trace.ndjson")
     tcptrace = os.path.join(ctx.scratch, "tcpconn_trace.ndjson")
     for p in (trace, tcptrace):
@@ -231,6 +231,8 @@ def engines(ctx, prefix=""):
             os.remove(p)
     runs = []
     for cfg in engine_configs(ctx.tier, ctx.seed):
+        if only is not None and cfg["name"] not in only:
+            continue
         cfg = dict(cfg, traceOut=trace, tcpTraceOut=tcptrace)
         res = run_driver(ctx, "./c10", "TestEngineLoad", cfg, "eng_" + cfg["name"], timeout=900)
         if res is None:
@@ -248,7 +250,8 @@ def engines(ctx, prefix=""):
             raise vf.MachineryError("engine run %s skipped: %s" % (cfg["name"], res["skipped"][:3]))
         if not res.get("violations") and (c.get("udp_datagrams_received", 0) < 50 or c.get("tcp_answered", 0) < 10):
             raise vf.MachineryError("engine run %s is vacuous: %s" % (cfg["name"], info))
-    secure_legs(ctx, tcptrace, prefix)
+    if secure:
+        secure_legs(ctx, tcptrace, prefix)
     validate_udp_trace(ctx, trace, prefix)
     validate_tcp_trace(ctx, tcptrace, prefix)
     return runs
